@@ -13,6 +13,7 @@ RULE = {"C09": "generated owner classes with 1-6 tunables (defaults of every sup
                "python writes/reads and NetworkTables-side writes/reads through independent publishers/subscribers.  Non-trivial = "
                ">=2 tunables and >=1 NetworkTables-side write observed from python and >=1 python write observed from "
                "NetworkTables; distinct = hash of (definition, history)."}
+RULE["C09"] += '  Also: owners that are StateMachines or falsy objects, hints on a base class, inherited and redefined tunables, nearly-equal pre-existing struct values (compared by field), a second object bound under a used name.'
 REQUIRED = {"C09": {"falsy-owner": 100, "type-hint-on-base-class": 20, "writeDefault-true-overwrites-nearly-equal-struct": 10, "type:boolean": 50, "type:int": 50, "type:double": 50, "type:string": 50, "type:raw": 20, "type:struct:Rotation2d": 20,
                     "type:boolean[]": 20, "type:int[]": 20, "type:double[]": 20, "type:string[]": 20, "type:struct:Rotation2d[]": 10,
                     "empty-hinted": 30, "writeDefault-true-overwrites": 50, "writeDefault-false-preserves": 50, "writeDefault-false-preserves-falsy": 10, "subtable": 100, "redefines-inherited-tunable": 30, "base-class-instance-bound-first": 30, "statemachine-owner": 50, "negative-duration-value": 30,
